@@ -10,7 +10,7 @@ from concurrent.futures import ThreadPoolExecutor
 HERE = os.path.dirname(os.path.abspath(__file__))
 VERIF = os.path.dirname(os.path.dirname(HERE))
 SPEC = os.path.join(VERIF, "spec")
-RUN = os.path.join(VERIF, "run")
+RUN = os.environ.get("VERIF_RUN_DIR") or os.path.join(VERIF, "run")      # (a private scratch directory for runs started side by side, e.g. against mutants)
 JAR = "/opt/veriftools/tla/tla2tools.jar:/opt/veriftools/tla/CommunityModules-deps.jar"
 
 
